@@ -3086,6 +3086,13 @@ class Mailbox:
         else:
             raise MailboxExists(f"Destination mailbox '{new_name}' exists")
 
+        # If the new name has superior hierarchical names that do not exist
+        # create them first (rfc3501 6.3.5)
+        #
+        new_parent = os.path.dirname(new_name)
+        if new_parent and not server.folder_exists(new_parent):
+            await cls.create(new_parent, server)
+
         # Inbox is handled specially.
         #
         if mbox.name.lower() != "inbox":
